@@ -53,7 +53,7 @@ Qed.
 
 Lemma sech_asech : forall x, 0 < x <= 1 -> nbt_sech (nbt_asech x) = x.
 Proof.
-  intros x [H0 H1]. unfold nbt_sech, nbt_asech.
+  intros x [H0 H1]. unfold nbt_sech, nbt_asech, nbt_sqrt.
   assert (Hi : 1 <= 1 / x).
   { apply (Rmult_le_reg_r x); [assumption|]. replace (1 / x * x) with 1 by (field; lra). lra. }
   set (s1 := sqrt (1 / x - 1)). set (s2 := sqrt (1 / x + 1)).
@@ -74,7 +74,7 @@ Qed.
 
 Lemma csch_acsch : forall x, x <> 0 -> nbt_csch (nbt_acsch x) = x.
 Proof.
-  intros x Hx. unfold nbt_csch, nbt_acsch.
+  intros x Hx. unfold nbt_csch, nbt_acsch, nbt_sqrt.
   assert (Hsq : 0 < 1 / x ^ 2).
   { apply Rdiv_lt_0_compat; [lra|]. simpl. rewrite Rmult_1_r.
     destruct (Rtotal_order x 0) as [L|[L|L]]; [|contradiction|]; nra. }
@@ -92,4 +92,61 @@ Proof.
     rewrite S, T. ring. }
   unfold sinh. rewrite exp_Ropp, exp_ln by assumption. rewrite Hinv.
   replace (w - (s - t)) with (2 * t) by (unfold w; ring). unfold t. field. assumption.
+Qed.
+
+Lemma inv_abs_le_1 : forall x, (1 <= x \/ x <= -1) -> -1 <= 1 / x <= 1.
+Proof.
+  intros x [H|H].
+  - assert (0 < 1 / x) by (apply Rdiv_lt_0_compat; lra).
+    assert (1 / x <= 1).
+    { apply (Rmult_le_reg_r x); [lra|]. replace (1 / x * x) with 1 by (field; lra). lra. }
+    lra.
+  - assert (1 / x < 0).
+    { replace (1 / x) with (- (1 / - x)) by (field; lra).
+      assert (0 < 1 / - x) by (apply Rdiv_lt_0_compat; lra). lra. }
+    assert (-1 <= 1 / x).
+    { replace (1 / x) with (- (1 / - x)) by (field; lra).
+      assert (1 / - x <= 1).
+      { apply (Rmult_le_reg_r (- x)); [lra|]. replace (1 / - x * - x) with 1 by (field; lra). lra. }
+      lra. }
+    lra.
+Qed.
+
+Lemma sec_arcsec : forall x, (1 <= x \/ x <= -1) -> nbt_secant (nbt_arcsecant x) = x.
+Proof.
+  intros x H. unfold nbt_secant, nbt_arcsecant.
+  rewrite cos_acos by (apply inv_abs_le_1; assumption). field. destruct H; lra.
+Qed.
+
+Lemma csc_acsc : forall x, (1 <= x \/ x <= -1) -> nbt_csc (nbt_acsc x) = x.
+Proof.
+  intros x H. unfold nbt_csc, nbt_cosecant, nbt_acsc.
+  rewrite sin_asin by (apply inv_abs_le_1; assumption). field. destruct H; lra.
+Qed.
+
+Lemma sqrt_sqr_inv : forall x, 0 <= x -> nbt_sqrt (nbt_sqr x) = x /\ nbt_sqr (nbt_sqrt x) = x.
+Proof.
+  intros x H. unfold nbt_sqrt, nbt_sqr. split.
+  - apply sqrt_pow2. assumption.
+  - apply pow2_sqrt. assumption.
+Qed.
+
+Lemma rpower_cube_root : forall y, 0 < y -> Rpower (y ^ 3) (1 / 3) = y.
+Proof.
+  intros y Hy. rewrite <- (Rpower_pow 3 y Hy). rewrite Rpower_mult.
+  replace (INR 3 * (1 / 3)) with 1 by (simpl; field). apply Rpower_1. assumption.
+Qed.
+
+(* cbrt(x) = if x > 0 then x^(1/3) else -(-x)^(1/3).  x = 0 is excluded: Coq's Rpower 0 y is 1
+   (ln 0 = 0 by convention), which is an artefact of the real-number library, not of numbat *)
+Lemma cbrt_cube : forall x, x <> 0 -> nbt_cbrt (x ^ 3) = x.
+Proof.
+  intros x Hx. unfold nbt_cbrt.
+  destruct (Rtotal_order x 0) as [L|[L|L]]; [|contradiction|].
+  - assert (Hneg : x ^ 3 < 0).
+    { replace (x ^ 3) with (- ((- x) ^ 3)) by ring. assert (0 < (- x) ^ 3) by (apply pow_lt; lra). lra. }
+    destruct (Rlt_dec 0 (x ^ 3)) as [H|H]; [lra|].
+    replace (- x ^ 3) with ((- x) ^ 3) by ring. rewrite rpower_cube_root by lra. ring.
+  - assert (Hpos : 0 < x ^ 3) by (apply pow_lt; assumption).
+    destruct (Rlt_dec 0 (x ^ 3)) as [H|H]; [|lra]. apply rpower_cube_root. assumption.
 Qed.
